@@ -139,7 +139,7 @@ var _ = ws.StateServerSide
 //@   ensures  [pos]  inPos(self) == old(inPos(self))+n
 //@   ensures  [data] forall(0, n, func(k int) bool { return p[k] == inByte(self, old(inPos(self))+k) })
 //@   ensures  [err]  err != nil ==> inPos(self) == inEnd(self) && err == inErr(self)
-//@   assigns bytes(p), stream(self)
+//@   assigns bytes(p), instream(self)
 
 //@ iface io.Writer.Write(p []byte) (n int, err error)
 //@   ensures  [calls] outCalls(self) == old(outCalls(self))+1
@@ -148,7 +148,7 @@ var _ = ws.StateServerSide
 //@   ensures  [data]  forall(0, n, func(k int) bool { return outByte(self, old(outLen(self))+k) == p[k] })
 //@   ensures  [keep]  forall(0, old(outLen(self)), func(k int) bool { return outByte(self, k) == old(outByte(self, k)) })
 //@   ensures  [errtype] err != nil ==> !dynTypeIs(err, "wsutil.ClosedError")
-//@   assigns stream(self)
+//@   assigns outstream(self)
 
 // ---------------------------------------------------------------------------
 // Streaming mask reader / writer (C02).
@@ -175,7 +175,7 @@ var _ = ws.StateServerSide
 //@   ensures  [data] forall(0, n, func(k int) bool { return p[k] == inByte(c.r, old(inPos(c.r))+k)^c.mask[ws.VMaskIdx(old(c.pos), k)] })
 //@   ensures  [err]  err != nil ==> inPos(c.r) == inEnd(c.r) && err == inErr(c.r)
 //@   ensures  [same] c.r == old(c.r) && c.mask == old(c.mask)
-//@   assigns c.pos, bytes(p), stream(c.r)
+//@   assigns c.pos, bytes(p), instream(c.r)
 
 //@ func NewCipherWriter
 //@   props C02 C18
@@ -199,7 +199,7 @@ var _ = ws.StateServerSide
 //@   ensures  [data] forall(0, n, func(k int) bool { return outByte(c.w, old(outLen(c.w))+k) == p[k]^c.mask[ws.VMaskIdx(old(c.pos), k)] })
 //@   ensures  [keep] forall(0, old(outLen(c.w)), func(k int) bool { return outByte(c.w, k) == old(outByte(c.w, k)) })
 //@   ensures  [same] c.w == old(c.w) && c.mask == old(c.mask)
-//@   assigns c.pos, stream(c.w)
+//@   assigns c.pos, outstream(c.w)
 
 // ---------------------------------------------------------------------------
 // Fragmenting writer (C06, C16, C18).
@@ -382,7 +382,7 @@ func specExtLen(n int) int {
 //@   ensures  [ext]  err == nil ==> forall(0, specExtLen(w.n), func(k int) bool { return outByte(w.dest, old(outLen(w.dest))+2+k) == specExtByte(w.n, k) })
 //@   ensures  [payload] err == nil ==> forall(0, w.n, func(k int) bool { return outByte(w.dest, old(outLen(w.dest))+specHdrLen(w.n, w.state&ws.StateClientSide != 0)+k) == old(w.buf[k])^iteByte(w.state&ws.StateClientSide != 0, outByte(w.dest, old(outLen(w.dest))+specHdrLen(w.n, true)-4+k%4), 0) })
 //@   ensures  [keep] forall(0, old(outLen(w.dest)), func(k int) bool { return outByte(w.dest, k) == old(outByte(w.dest, k)) }) && outLen(w.dest) >= old(outLen(w.dest)) && outCalls(w.dest) >= old(outCalls(w.dest))
-//@   assigns bytes(w.raw), stream(w.dest)
+//@   assigns bytes(w.raw), outstream(w.dest)
 //@   loop 1 invariant [hdr] header.Fin == fin && header.Length == int64(w.n) && !header.Masked && header.Rsv < 8 && err == nil && header.OpCode == w.opCode() && (len(w.extensions) == 0 ==> header.Rsv == 0)
 //@   loop 1 invariant [rsv] (rangeIdx() < 0 ==> header.Rsv == 0) && (rangeIdx() >= 0 ==> header.Rsv == ufSendRsv(w.extensions[0], w.opCode(), fin, int64(w.n), 0)) && -1 <= rangeIdx() && rangeIdx() < len(w.extensions)
 
@@ -405,7 +405,7 @@ func clientSide(s ws.State) bool { return s&ws.StateClientSide != 0 }
 //@   ensures  [keep]  forall(0, old(outLen(w.dest)), func(k int) bool { return outByte(w.dest, k) == old(outByte(w.dest, k)) }) && outLen(w.dest) >= old(outLen(w.dest)) && outCalls(w.dest) >= old(outCalls(w.dest))
 //@   ensures  [same]  w.dirty == old(w.dirty) && w.dest == old(w.dest) && w.op == old(w.op) && w.state == old(w.state) && w.noFlush == old(w.noFlush) && sameSlice(w.raw, old(w.raw)) && sameSlice(w.buf, old(w.buf)) && len(w.extensions) == 0
 //@   ensures  [inv]   invWriter(w)
-//@   assigns w.err, w.n, w.fseq, bytes(w.raw), stream(w.dest)
+//@   assigns w.err, w.n, w.fseq, bytes(w.raw), outstream(w.dest)
 
 //@ func Writer.Flush
 //@   props C06 C16 C08
@@ -419,7 +419,7 @@ func clientSide(s ws.State) bool { return s&ws.StateClientSide != 0 }
 //@   ensures  [keep]  forall(0, old(outLen(w.dest)), func(k int) bool { return outByte(w.dest, k) == old(outByte(w.dest, k)) }) && outLen(w.dest) >= old(outLen(w.dest)) && outCalls(w.dest) >= old(outCalls(w.dest))
 //@   ensures  [same]  w.dest == old(w.dest) && w.op == old(w.op) && w.state == old(w.state) && w.noFlush == old(w.noFlush) && sameSlice(w.raw, old(w.raw)) && sameSlice(w.buf, old(w.buf)) && len(w.extensions) == 0
 //@   ensures  [inv]   invWriter(w)
-//@   assigns w.err, w.n, w.fseq, w.dirty, bytes(w.raw), stream(w.dest)
+//@   assigns w.err, w.n, w.fseq, w.dirty, bytes(w.raw), outstream(w.dest)
 
 //@ func ceilPowerOfTwo
 //@   props C06
@@ -457,7 +457,7 @@ func ufSendRsv(x SendExtension, op ws.OpCode, fin bool, length int64, rsv byte) 
 //@   ensures  [keep]  forall(0, old(outLen(w.dest)), func(k int) bool { return outByte(w.dest, k) == old(outByte(w.dest, k)) }) && outLen(w.dest) >= old(outLen(w.dest)) && outCalls(w.dest) >= old(outCalls(w.dest))
 //@   ensures  [same]  w.n == old(w.n) && w.dest == old(w.dest) && w.op == old(w.op) && w.state == old(w.state) && w.noFlush == old(w.noFlush) && sameSlice(w.raw, old(w.raw)) && sameSlice(w.buf, old(w.buf)) && len(w.extensions) == old(len(w.extensions))
 //@   ensures  [inv]   invWriter(w)
-//@   assigns w.err, w.dirty, w.fseq, stream(w.dest)
+//@   assigns w.err, w.dirty, w.fseq, outstream(w.dest)
 //@   loop 1 invariant [hdr] !frame.Header.Fin && frame.Header.Length == int64(len(p)) && !frame.Header.Masked && frame.Header.Mask == [4]byte{} && frame.Header.Rsv < 8 && err == nil && frame.Header.OpCode == w.opCode() && isNilSlice(frame.Payload)
 //@   loop 1 invariant [rsv] (rangeIdx() < 0 ==> frame.Header.Rsv == 0) && (rangeIdx() >= 0 ==> frame.Header.Rsv == ufSendRsv(w.extensions[0], w.opCode(), false, int64(len(p)), 0))
 //@   loop 1 invariant [idx] -1 <= rangeIdx() && rangeIdx() < len(w.extensions)
@@ -490,8 +490,8 @@ func ufSendRsv(x SendExtension, op ws.OpCode, fin bool, length int64, rsv byte) 
 //@   ensures  [dirty] w.dirty
 //@   ensures  [inv]   invWriter(w) && w.dest == old(w.dest) && w.op == old(w.op) && w.state == old(w.state) && w.noFlush == old(w.noFlush) && len(w.extensions) == 0
 //@   ensures  [keep]  forall(0, old(outLen(w.dest)), func(k int) bool { return outByte(w.dest, k) == old(outByte(w.dest, k)) }) && outLen(w.dest) >= old(outLen(w.dest)) && outCalls(w.dest) >= old(outCalls(w.dest))
-//@   assigns *w, bytes(w.raw), stream(w.dest)
-//@   loop 1 assigns *w, bytes(w.raw), stream(w.dest)
+//@   assigns *w, bytes(w.raw), outstream(w.dest)
+//@   loop 1 assigns *w, bytes(w.raw), outstream(w.dest)
 //@   loop 1 invariant [b] invWriter(w) && w.dest == old(w.dest) && w.dest != nil && w.op == old(w.op) && w.state == old(w.state) && w.noFlush == old(w.noFlush) && len(w.extensions) == 0 && w.dirty
 //@   loop 1 invariant [p] 0 <= n && n <= len(old(p)) && sameBase(p, old(p)) && offOf(p) == offOf(old(p))+n && len(p) == len(old(p))-n && cap(p) == cap(old(p))-n
 //@   loop 1 invariant [raw] sameSlice(w.raw, old(w.raw)) || len(p) <= len(w.buf)-w.n
@@ -558,14 +558,14 @@ func invControlWriter(c *ControlWriter) bool {
 //@   ensures  [count] c.n == old(c.n)+n
 //@   ensures  [nofrag] outCalls(c.w.dest) == old(outCalls(c.w.dest))
 //@   ensures  [inv] invControlWriter(c)
-//@   assigns c.n, *c.w, bytes(c.w.raw), stream(c.w.dest)
+//@   assigns c.n, *c.w, bytes(c.w.raw), outstream(c.w.dest)
 
 //@ func ControlWriter.Flush
 //@   props C08
 //@   requires [inv] invControlWriter(c)
 //@   ensures  [one]  outCalls(c.w.dest) <= old(outCalls(c.w.dest))+1
 //@   ensures  [final] outCalls(c.w.dest) == old(outCalls(c.w.dest))+1 && result == nil ==> outByte(c.w.dest, old(outLen(c.w.dest))) == 0x80|byte(c.w.op) && outLen(c.w.dest) == old(outLen(c.w.dest))+specHdrLen(old(c.w.n), clientSide(c.w.state))+old(c.w.n) && old(c.w.n) <= 125
-//@   assigns *c.w, bytes(c.w.raw), stream(c.w.dest)
+//@   assigns *c.w, bytes(c.w.raw), outstream(c.w.dest)
 
 // ---------------------------------------------------------------------------
 // UTF-8 validation (C07). specUTF8Step is the automaton read off RFC 3629 §4 (Unicode Table 3-7),
@@ -710,7 +710,7 @@ func utf8FoldStep(s int, b byte) int { return specUTF8Step(s, b) }
 //@   ensures  [srcerr] err != nil && err != ErrInvalidUTF8 ==> err == inErr(u.Source) && inPos(u.Source) == inEnd(u.Source)
 //@   ensures  [acc]   err != ErrInvalidUTF8 ==> 0 <= u.accepted && u.accepted <= n && (u.accepted > 0 ==> utf8Fold(absUTF8(old(u.state)), p, u.accepted) == 0)
 //@   ensures  [valid] validUTF8State(u.state) && u.Source == old(u.Source)
-//@   assigns u.state, u.codep, u.accepted, bytes(p), stream(u.Source)
+//@   assigns u.state, u.codep, u.accepted, bytes(p), instream(u.Source)
 //@   loop 1 invariant [b] 0 <= i && i <= n && n <= len(p) && validUTF8State(s) && s != 12 && 0 <= accepted && accepted <= i
 //@   loop 1 invariant [run] absUTF8(s) == utf8Fold(absUTF8(old(u.state)), p, i) && forall(0, i+1, func(j int) bool { return utf8Fold(absUTF8(old(u.state)), p, j) != 8 })
 //@   loop 1 invariant [acc] accepted > 0 ==> utf8Fold(absUTF8(old(u.state)), p, accepted) == 0
@@ -730,7 +730,7 @@ func utf8FoldStep(s int, b byte) int { return specUTF8Step(s, b) }
 //@   ensures  [errv]  err != nil ==> err == inErr(r) || err == io.ErrUnexpectedEOF
 //@   ensures  [n]     0 <= n && n <= len(buf)
 //@   ensures  [pos]   inPos(r) == old(inPos(r))+n
-//@   assigns bytes(buf), stream(r)
+//@   assigns bytes(buf), instream(r)
 
 //@ func Reader.readHeader
 //@   props C01 C04 C05 C15 C16
@@ -741,7 +741,7 @@ func utf8FoldStep(s int, b byte) int { return specUTF8Step(s, b) }
 //@   ensures  [ok]     inEnd(in)-old(inPos(in)) >= ws.VSpecNeed(inByte(in, old(inPos(in))+1)) && !ws.VSpecMSB(in, old(inPos(in))) ==> err == nil && h == ws.VSpecDecode(in, old(inPos(in))) && inPos(in) == old(inPos(in))+ws.VSpecNeed(inByte(in, old(inPos(in))+1))
 //@   ensures  [nomore] inPos(in) <= old(inPos(in))+ws.VSpecNeed(inByte(in, old(inPos(in))+1)) && inPos(in) >= old(inPos(in))
 //@   ensures  [stream] streamOK(in)
-//@   assigns r.tmp, stream(in)
+//@   assigns r.tmp, instream(in)
 
 // invReader is the representation invariant of Reader.
 func invReader(r *Reader) bool {
@@ -793,7 +793,7 @@ func idleReader(r *Reader) bool {
 //@   ensures  [ok]  err == nil ==> src.(*io.LimitedReader).N == 0 || (inPos(src.(*io.LimitedReader).R) == inEnd(src.(*io.LimitedReader).R) && inErr(src.(*io.LimitedReader).R) == io.EOF)
 //@   ensures  [err] err != nil ==> err == inErr(src.(*io.LimitedReader).R) && inPos(src.(*io.LimitedReader).R) == inEnd(src.(*io.LimitedReader).R) && err != io.EOF
 //@   ensures  [stream] streamOK(src.(*io.LimitedReader).R) && src.(*io.LimitedReader).R == old(src.(*io.LimitedReader).R)
-//@   assigns src.(*io.LimitedReader).N, stream(src.(*io.LimitedReader).R)
+//@   assigns src.(*io.LimitedReader).N, instream(src.(*io.LimitedReader).R)
 
 func hdrComplete(r io.Reader, p0 int) bool {
 	return inEnd(r)-p0 >= 2 && inEnd(r)-p0 >= ws.VSpecNeed(inByte(r, p0+1)) && !ws.VSpecMSB(r, p0)
@@ -833,7 +833,7 @@ func sameHdrButRsv(a, b ws.Header) bool {
 //@   ensures  [mono]  inPos(r.Source) >= old(inPos(r.Source))
 //@   ensures  [cfg]   len(r.Extensions) == old(len(r.Extensions)) && r.OnContinuation == nil && r.OnIntermediate == nil
 //@   ensures  [inv]   invReader(r) && streamOK(r.Source) && r.Source == old(r.Source) && r.CheckUTF8 == old(r.CheckUTF8)
-//@   assigns *r, *r.cr, stream(r.Source)
+//@   assigns *r, *r.cr, instream(r.Source)
 //@   loop 1 invariant [hdr] sameHdrButRsv(hdr, ws.VSpecDecode(r.Source, old(inPos(r.Source)))) && err == nil && -1 <= rangeIdx() && rangeIdx() < len(r.Extensions)
 //@   loop 1 invariant [rsv] (rangeIdx() < 0 ==> hdr == ws.VSpecDecode(r.Source, old(inPos(r.Source)))) && (rangeIdx() >= 0 ==> hdr.Rsv == ufRecvRsv(r.Extensions[0], ws.VSpecDecode(r.Source, old(inPos(r.Source))).OpCode, ws.VSpecDecode(r.Source, old(inPos(r.Source))).Fin, ws.VSpecDecode(r.Source, old(inPos(r.Source))).Length, ws.VSpecDecode(r.Source, old(inPos(r.Source))).Rsv))
 
@@ -855,7 +855,7 @@ func iteReader(c bool, a, b io.Reader) io.Reader {
 //@   ensures  [code]  result == nil && !clientSide(c.State) ==> outByte(c.Dst, old(outLen(c.Dst))+2) == 0x03 && outByte(c.Dst, old(outLen(c.Dst))+3) == 0xea
 //@   ensures  [codem] result == nil && clientSide(c.State) ==> outByte(c.Dst, old(outLen(c.Dst))+6) == 0x03^outByte(c.Dst, old(outLen(c.Dst))+2)
 //@   ensures  [codem2] result == nil && clientSide(c.State) ==> outByte(c.Dst, old(outLen(c.Dst))+7) == 0xea^outByte(c.Dst, old(outLen(c.Dst))+3)
-//@   assigns stream(c.Dst)
+//@   assigns outstream(c.Dst)
 
 // Reader.Read: the decision logic around one read of the current frame. The reader chain behind
 // r.frame (limit, unmask, UTF-8) is treated as an arbitrary io.Reader that may also move the
@@ -863,7 +863,7 @@ func iteReader(c bool, a, b io.Reader) io.Reader {
 //@ func Reader.Read
 //@   props C04 C07 C16 C18
 //@   call Reader.fragmented inline
-//@   invoke io.Reader.Read assigns (&r.raw).N, (&r.utf8).state, (&r.utf8).codep, (&r.utf8).accepted, r.cr.pos, bytes(p), stream(r.Source)
+//@   invoke io.Reader.Read assigns (&r.raw).N, (&r.utf8).state, (&r.utf8).codep, (&r.utf8).accepted, r.cr.pos, bytes(p), instream(r.Source)
 //@   invoke io.Reader.Read ensures [rejstate] inErr(r.Source) != ErrInvalidUTF8 && c_err == ErrInvalidUTF8 ==> r.utf8.state == 12
 //@   invoke io.Reader.Read ensures [okstate]  c_err != ErrInvalidUTF8 ==> r.utf8.state != 12
 //@   invoke io.Reader.Read ensures [chaininv] validUTF8State(r.utf8.state) && r.raw.N >= 0 && streamOK(r.Source)
@@ -968,7 +968,7 @@ func iteReader(c bool, a, b io.Reader) io.Reader {
 //@   ensures  [b1]    result == nil ==> outByte(w, old(outLen(w))+1) == specB1(len(p), clientSide(s))
 //@   ensures  [payload] result == nil ==> forall(0, len(p), func(k int) bool { return outByte(w, old(outLen(w))+specHdrLen(len(p), clientSide(s))+k) == p[k]^iteByte(clientSide(s), outByte(w, old(outLen(w))+specHdrLen(len(p), true)-4+k%4), 0) })
 //@   ensures  [keep]  forall(0, old(outLen(w)), func(k int) bool { return outByte(w, k) == old(outByte(w, k)) })
-//@   assigns stream(w)
+//@   assigns outstream(w)
 
 //@ func WriteMessage
 //@   props C06 C17
@@ -977,7 +977,7 @@ func iteReader(c bool, a, b io.Reader) io.Reader {
 //@   ensures  [b0]    result == nil ==> outByte(w, old(outLen(w))) == 0x80|byte(op)
 //@   ensures  [b1]    result == nil ==> outByte(w, old(outLen(w))+1) == specB1(len(p), clientSide(s))
 //@   ensures  [keep]  forall(0, old(outLen(w)), func(k int) bool { return outByte(w, k) == old(outByte(w, k)) })
-//@   assigns stream(w)
+//@   assigns outstream(w)
 
 // Small constructors and setters (C04, C06, C18).
 //@ func NewClientSideReader
@@ -1036,7 +1036,7 @@ func iteReader(c bool, a, b io.Reader) io.Reader {
 //@   requires [stream] streamOK(r)
 //@   ensures [fresh] result1 == nil ==> fresh(result0) || len(result0) == 0
 //@   ensures [data]  result1 == nil ==> len(result0) == inEnd(r)-old(inPos(r)) && forall(0, len(result0), func(k int) bool { return result0[k] == inByte(r, old(inPos(r))+k) })
-//@   assigns stream(r)
+//@   assigns instream(r)
 
 //@ func ReadMessage$1
 //@   props C04 C17
